@@ -956,6 +956,9 @@ def run(ctx, rep):
     c11.check_inplace(ctx, RuleProxy(rep, 'C15.R', 'in-place::'), rule='C11.W', only=lambda m, fn: m.name == 'torchtree.core.parameter')
     check_no_state_dependent_redraws(ctx, rep)
     check_loggers_keep_no_live_tensors(ctx, rep)
+    # the Hastings ratio of the GMRF block update needs the Gaussian of the CURRENT state for the backward move (C20.H)
+    from props import c20
+    c20.check_block_update_reads_before_it_writes(ctx, RuleProxy(rep, 'C15.Q', 'gmrf-block-update::'))
 
 
 REDRAW_POSITIVE = """
